@@ -221,6 +221,9 @@ def run(tier='quick', seed=0, only=None, verbose=False):
     base += families.fam_edge_templates()[1:3]      # one edge template serving two vectorization groups
     # edges with gamma kernels (a ring of one kernel): the edge paths must keep their meaning under every declaration order
     base += [p for p in families.fam_gamma_fixed() if p[0] == 'F11x:identical-kernels' or p[0] == 'F11x:ring-decl-120']
+    # a variable path inside an edge definition (second input of an edge operator): it keeps addressing its node when the
+    # nodes are merged into vectorization groups, whatever the declaration order
+    base += [p for p in families.fam_edge_inputs() if p[0].startswith('FEI:1:')][:2]
     progs = []
     for key, spec in base:
         n = len(spec.nodes)
